@@ -13,14 +13,25 @@ pub fn main(args: &[String]) {
     std::fs::create_dir_all(&dir).unwrap();
     let shards: Vec<Shard> = (0..nsh).map(|k| Shard::create(&dir, &prefix, k).with_meta(&dir, &prefix, k)).collect();
     let mut pel: Vec<Shard> = (0..nsh).map(|k| Shard::create(&dir, "pel-sim", k)).collect();
+    let mut plog: Vec<Shard> = (0..nsh).map(|k| Shard::create(&dir, "plog-sim", k)).collect();
     let mut rec = Recorder { shards, rr: 0, calls: 0, panics: Default::default(), hist: Default::default(), enabled: true };
     for k in 0..runs {
         let mut sim = Sim::new(seed.wrapping_mul(1_000_003).wrapping_add(k as u64), rec);
         sim.keep_trace = arg(args, "--trace", "0") != "0";
         sim.trace_tail = arg(args, "--trace", "0").parse().unwrap_or(60);
+        // every fourth run is adversarial: hand-made peer messages, pointwise tie only (no P traces)
+        sim.adversarial = k % 4 == 3;
+        // half of the runs never propose a membership change: their P-level traces cover the whole run
+        sim.fixed_conf = k % 4 < 2;
+        // run profiles: rare operations of one area at a higher rate
+        sim.focus = ((k / 4) % 5) as u8;
         sim.run(steps);
-        let (c, i) = sim.pt.lines();
-        pel[k % nsh].put("pelection", &c, &i);
+        if !sim.adversarial {
+            let (c, i) = sim.pt.lines();
+            pel[k % nsh].put("pelection", &c, &i);
+            let (c2, i2) = sim.pt.llines();
+            plog[k % nsh].put("plog", &c2, &i2);
+        }
         rec = sim.rec;
     }
     let mut total = 0;
@@ -30,6 +41,9 @@ pub fn main(args: &[String]) {
         total += s.finish();
     }
     for s in pel {
+        s.finish();
+    }
+    for s in plog {
         s.finish();
     }
     println!("cases={}", total);
